@@ -100,8 +100,12 @@ def make_udt(project, r, name, template_id, handle, feat, depth):
         off = align(off, al)
         hidden = False
         mname = rand_name(r, used, 1, 12)
-        if r.random() < 0.05:
+        c2 = r.random()
+        if c2 < 0.05:
             mname = "__" + mname
+            hidden = True
+        elif c2 < 0.09 and feat.get("unnamed_members", True):
+            mname = ""              # unnamed internal member (seen in add-on instruction templates)
             hidden = True
         members.append({"name": mname, "type": t, "array": arr, "offset": off, "bit": None, "hidden": hidden})
         off += type_size(project, t) * (arr or 1)
@@ -310,6 +314,11 @@ def gen_project(r, feat=None):
         for _ in range(r.randint(0, 2)):
             sysd.append({"name": r.choice(("Map:", "Cxn:")) + rand_name(r, names_ctrl, 1, 10), "scope": None,
                          "kind": "map", "symbol_type": r.choice((0x1069, 0x107E, 0x00C4))})
+        for _ in range(r.randint(0, 2)):
+            # other colon-prefixed system symbols; must not contain :I :O :C :S (those mark module I/O tags)
+            nm = r.choice(("Trend:", "Dtl:", "Axis:", "Msg:")) + r.choice("abdefghklmnpqrtuvwxyz") + rand_name(r, names_ctrl, 1, 8)
+            sysd.append({"name": nm, "scope": None, "kind": "sys", "type": "DINT", "dims": [], "access": 0,
+                         "software_control": 1 << 26})
         for _ in range(r.randint(0, 2)):
             nm = "__" + rand_name(r, names_ctrl, 1, 10)
             sysd.append({"name": nm, "scope": None, "kind": "sys", "type": "DINT", "dims": [], "access": 0,
